@@ -28,6 +28,12 @@ Oracle (observational, never predicts *which* attributes a load refreshes):
 * pending values that were not expired reach the database: after ``flush``/``commit``
   (and after an autoflushing ``populate_existing`` query) the row holds them.
 
+``populate_existing`` is exercised as execution option, ``Query.populate_existing()`` and
+``Session.get(populate_existing=True)``, also with rows that LACK normally loaded columns:
+textual ``SELECT <subset>`` through ``from_statement`` and (third mapping variant) joined-table
+inheritance, where every base-class SELECT returns subclass instances without the sub-table
+columns.
+
 Guards: ``refresh`` expires first and autoflushes second (so pending changes on the
 refreshed attributes are discarded, others flushed) - modelled as "EXPIRED, then scan";
 ``populate_existing`` with autoflush off overwrites pending values (documented) - their
@@ -52,7 +58,7 @@ META = {
     "exhaustive": {"quick": False, "thorough": False},
     "require": ["ext_writes", "reloads_after_ext_write", "expired_reload_checks", "value_kept_checks",
                 "pending_kept_checks", "pending_reached_db_checks", "populate_existing_ops", "refresh_ops",
-                "commit_expire_ops", "partial_expire_ops"],
+                "commit_expire_ops", "partial_expire_ops", "populate_existing_subset_rows"],
     "assumptions": ["sqlite3 raw handles report in_transaction truthfully"],
 }
 
@@ -64,6 +70,8 @@ class Hist:
     def __init__(self, ctx, rig, s, flags):
         self.ctx, self.rig, self.s, self.flags = ctx, rig, s, flags
         self.A = rig.cls["A"]
+        # table holding each judged column (joined-inheritance variant: y, z live in a_sub)
+        self.table_of = {"x": "a", "y": "a_sub", "z": "a_sub"} if flags.get("inheritance") else dict.fromkeys(ATTRS, "a")
         self.objs = {}       # pk -> object (strong)
         self.shadow = {}     # (pk, attr) -> EXP | ("val", v)
         self.pend = {}       # (pk, attr) -> pending local value that must reach the DB
@@ -87,7 +95,7 @@ class Hist:
         self.ctx.violation(mech, summary, self.wit(**kw))
 
     def truth(self, pk, attr):
-        rows = self.rig.truth(f"SELECT {attr} FROM a WHERE id=?", (pk,))
+        rows = self.rig.truth(f"SELECT {attr} FROM {self.table_of[attr]} WHERE id=?", (pk,))
         return rows[0][0]
 
     def getattr(self, pk, a):
@@ -156,7 +164,7 @@ class Hist:
 
 
 def build_ops(h):
-    from sqlalchemy import select
+    from sqlalchemy import select, text
 
     s, rng, A, rig, ctx = h.s, h.ctx.rng, h.A, h.rig, h.ctx
 
@@ -169,10 +177,11 @@ def build_ops(h):
             return None
         pk = rng.choice([1, 2, 3])
         attrs = rng.sample(ATTRS, rng.randint(1, 3))
-        sets = ", ".join(f"{a}=?" for a in attrs)
-        vals = [h.uniq("e") for _ in attrs]
         try:
-            rig.obs.execute(f"UPDATE a SET {sets} WHERE id=?", (*vals, pk))
+            for tab in sorted({h.table_of[a] for a in attrs}):
+                cols = [a for a in attrs if h.table_of[a] == tab]
+                sets = ", ".join(f"{a}=?" for a in cols)
+                rig.obs.execute(f"UPDATE {tab} SET {sets} WHERE id=?", (*[h.uniq("e") for _ in cols], pk))
         except sqlite3.OperationalError:
             ctx.count("ext_write_skipped_locked")
             return None
@@ -285,15 +294,16 @@ def build_ops(h):
         return ("flush",)
 
     def query():
-        kind = rng.choice(["plain", "plain_one", "populate_existing", "populate_existing_one", "get_pe"])
+        kind = rng.choice(["plain", "plain_one", "populate_existing", "populate_existing_one", "get_pe",
+                           "pe_legacy_query", "pe_subset_text", "pe_subset_text_one"])
         pk = rng.choice([1, 2, 3])
-        pe = kind in ("populate_existing", "populate_existing_one", "get_pe")
+        pe = kind != "plain" and kind != "plain_one"
         if pe:
-            hit = [pk] if kind != "populate_existing" else [1, 2, 3]
+            hit = [pk] if kind in ("populate_existing_one", "get_pe", "pe_subset_text_one") else [1, 2, 3]
             hit = [k for k in hit if k in h.objs]
             # rows returned by a populate_existing load are overwritten: pending values on
             # them survive only through an autoflush that precedes the SELECT
-            if s.autoflush and kind != "get_pe":
+            if s.autoflush and kind in ("populate_existing", "populate_existing_one", "pe_legacy_query"):
                 flushed = dict(h.pend)
             else:
                 flushed = None
@@ -310,8 +320,19 @@ def build_ops(h):
             res = s.scalars(select(A).execution_options(populate_existing=True)).all()
         elif kind == "populate_existing_one":
             res = s.scalars(select(A).where(A.id == pk).execution_options(populate_existing=True)).all()
-        else:
+        elif kind == "get_pe":
             res = [s.get(A, pk, populate_existing=True)]
+        elif kind == "pe_legacy_query":
+            res = s.query(A).populate_existing().all()
+        else:
+            # input class: the populate_existing row LACKS normally loaded columns (a textual
+            # SELECT of a subset; with joined inheritance every base-class SELECT is such a row
+            # for the sub-table columns): they must end up refreshed or expired, never stale
+            cols = "id, kind, x" if h.flags.get("inheritance") else rng.choice(["id, x", "id, y, z", "id"])
+            where = " WHERE id = %d" % pk if kind == "pe_subset_text_one" else ""
+            res = s.scalars(select(A).from_statement(text(f"SELECT {cols} FROM a{where}"))
+                            .execution_options(populate_existing=True)).all()
+            ctx.count("populate_existing_subset_rows", len(res))
         for o in res:
             k = o.__dict__.get("id")
             if k is not None and k not in h.objs:
@@ -330,7 +351,11 @@ def build_ops(h):
 def one_history(ctx, rig, flags, length):
     rng = ctx.rng
     rig.wipe()
-    rig.obs.execute("INSERT INTO a (id, x, y, z) VALUES (1,'x1','y1','z1'),(2,'x2','y2','z2'),(3,'x3','y3','z3')")
+    if flags.get("inheritance"):
+        rig.obs.execute("INSERT INTO a (id, kind, x) VALUES (1,'sub','x1'),(2,'sub','x2'),(3,'sub','x3')")
+        rig.obs.execute("INSERT INTO a_sub (id, y, z) VALUES (1,'y1','z1'),(2,'y2','z2'),(3,'y3','z3')")
+    else:
+        rig.obs.execute("INSERT INTO a (id, x, y, z) VALUES (1,'x1','y1','z1'),(2,'x2','y2','z2'),(3,'x3','y3','z3')")
     s = rig.session(autoflush=flags["autoflush"], expire_on_commit=flags["expire_on_commit"])
     h = Hist(ctx, rig, s, flags)
     table = build_ops(h)
@@ -376,14 +401,18 @@ def run(ctx):
     warnings.simplefilter("ignore")
     nhist = ctx.pick({"quick": 100, "thorough": 3000})
     sampled = 0
-    for deferred in (False, True):
-        rig = R.Rig(ctx, [lambda sa, orm, reg, d=deferred: R.zoo_flat(sa, orm, reg, deferred_z=d)])
+    for variant in ("plain", "deferred", "inheritance"):
+        deferred = variant == "deferred"
+        if variant == "inheritance":
+            rig = R.Rig(ctx, [R.zoo_flat_inh])
+        else:
+            rig = R.Rig(ctx, [lambda sa, orm, reg, d=deferred: R.zoo_flat(sa, orm, reg, deferred_z=d)])
         try:
-            for k in range(nhist if not deferred else max(4, nhist // 4)):
+            for k in range(nhist if variant == "plain" else max(4, nhist // (4 if deferred else 2))):
                 if not ctx.budget_ok():
                     break
                 flags = {"autoflush": ctx.rng.random() < 0.6, "expire_on_commit": ctx.rng.random() < 0.7,
-                         "deferred_z": deferred}
+                         "deferred_z": deferred, "inheritance": variant == "inheritance"}
                 h = one_history(ctx, rig, flags, ctx.rng.randint(15, 40))
                 if sampled < 3 and h.good:
                     ctx.sample({"flags": flags, "ops": h.trace[:30]})
